@@ -41,7 +41,7 @@ Print Assumptions C05_tx_invariant_preserved.
 Theorem C05_process_preserves : forall cx g s ip r s' reply tags,
   inv g s -> ctx_ok cx -> repr_ok r ->
   tcp_process cx s ip r = Ok (s', reply, tags) ->
-  exists g', inv g' s' /\ ghost_rel g g' /\ learned s r s'.
+  exists g', inv g' s' /\ ghost_rel g g' /\ learned s r s' /\ proc_ghost cx g s r g'.
 Proof. exact process_inv. Qed.
 Print Assumptions C05_process_preserves.
 
